@@ -80,7 +80,7 @@ Section Layout.
     | [] => []
     | (ppos, pos, t) :: r =>
         entry ppos (match first_same (rdid t) prev with
-                    | Some (j, x) => if kind_eqb (rkind x) (rkind t) then jnat j else full_entry t
+                    | Some (j, x) => if kind_eqb (rkind t) (rkind x) then jnat j else full_entry t
                     | None => full_entry t
                     end)
         :: lay_entries (prev ++ [(pos, t)]) r
@@ -139,7 +139,7 @@ Section Described.
      first occurrence it refers to *)
   Definition src_of (prev : list (nat * rt)) (p : nat) (t : rt) : nat * rt :=
     match first_same (rdid t) prev with
-    | Some (j, x) => if kind_eqb (rkind x) (rkind t) then (j, x) else (p, t)
+    | Some (j, x) => if kind_eqb (rkind t) (rkind x) then (j, x) else (p, t)
     | None => (p, t)
     end.
 
